@@ -82,6 +82,20 @@ Definition check_round (tol : Q) (kgc kgp : Q) (custom : option Q) (dist_meat : 
   | n => n
   end.
 
+(* a human-maximising round of a REAL run: per-head yields and class series are not observable there *)
+Definition check_round_run (tol : Q) (kgc kgp : Q) (custom : option Q) (dist_meat : Q) (herd : list animal)
+           (omonthly orunning : list Q) (osummed : Q)
+           (add_milk : bool) (yield dist_milk retail : Q) (omilk : list Q) : nat :=
+  if negb (lengths_ok herd) then 5%nat
+  else
+    let y := init_animal_kcals kgc kgp custom in
+    let r := meat_from_herd y dist_meat herd in
+    let scale := list_max_abs (mo_running r) in
+    if negb (cl tol 0 (mo_monthly r) omonthly) then 2%nat
+    else if negb (cl tol scale (mo_running r) orunning) then 3%nat
+    else if negb (close tol scale (mo_summed r) osummed) then 4%nat
+    else check_milk tol add_milk yield dist_milk retail herd omilk.
+
 (* round 2 (feed maximising): the monthly series was re-timed; total and summed must be the herd's, the running series
    must be the prefix sums of WHAT WAS OFFERED, and the last running value must equal the herd total *)
 Definition check_round2 (tol : Q) (kgc kgp : Q) (custom : option Q) (dist_meat : Q) (herd : list animal)
